@@ -348,7 +348,7 @@ func supervise(prop, tier string) int {
 			nruns = v
 		}
 	}
-	budget := 25 * time.Minute
+	budget := 40 * time.Minute
 	if tier == "quick" {
 		budget = 4 * time.Minute
 	}
@@ -379,7 +379,6 @@ func supervise(prop, tier string) int {
 		samples   []any
 		failing   = map[string]*h.Result{} // signature -> first (lowest run) result
 		harnessEr []string
-		digests   = map[int]string{}
 	)
 	merge := func(res *h.Result) {
 		mu.Lock()
@@ -397,7 +396,6 @@ func supervise(prop, tier string) int {
 		if res.Err != "" {
 			harnessEr = append(harnessEr, fmt.Sprintf("run %d: %s", res.Run, res.Err))
 		}
-		digests[res.Run] = res.Digest
 		for _, v := range res.Violations {
 			key := v.Property + "|" + v.Signature
 			if old, ok := failing[key]; !ok || res.Run < old.Run {
